@@ -361,3 +361,11 @@ CHECKS["C31"] = dict(
     bounds="f(c1 x + c2 x^2) for f in {exp, log(1+.), sin/cos, tan, atan, sinh/cosh, 1/(1+.), sqrt(1+.), (1+.)^3 exp} with c1 a symbolic integer |c1|<=2 (5) and c2 from {0,1,-2,3}, order 5 (7): the returned coefficients satisfy the defining differential/functional equation of each function as exact coefficient identities (exact rational arithmetic)",
     outside=["asin, lambertw, series reversion", "rational inner coefficients", "orders above 7"],
 )
+
+CHECKS["C22"] = dict(
+    src="C22.cpp", level="model_checking",
+    entries=[dict(name="harness_c22", quick={"B": 2, "V": 2, "nterms": 1, "nsets": 5, "emax": 1}, thorough={"B": 3, "V": 3, "nterms": 2, "nsets": 8, "emax": 2, "_wall": 1700})],
+    anchors=["SymEngine::reconcile", "SymEngine::MIntPoly::eval", "SymEngine::add_mpoly", "SymEngine::mul_mpoly", "SymEngine::MIntPoly::as_symbolic"],
+    bounds="two MIntPoly operands, each over a subset of {x,y,z} (quick: 5 subsets {}, {x}, {y}, {x,y}, {x,y,z}; thorough: all 8; every ordered pair: equal, overlapping, disjoint, empty), 1 (2) terms with exponents 0..1 (0..2) and symbolic integer coefficients |c|<=2 (4); add, sub, mul, neg, square; evaluation homomorphism at a symbolic integer point |v|<=2 (3); as_symbolic/from_basic round trip",
+    outside=["MExprPoly", "exponents above 2", "more than 3 variables"],
+)
